@@ -990,6 +990,139 @@ def atom_of(env, sym):
     return m.Equals(sym, sym)
 
 
+def check_let_towers(ctx, timings):
+    """re-parsing of towers of lets that RE-DEFINE a name: (i) hand-written `(let ((x (+ x 1))) (let ((x (+ x 1))) ...`
+    of depth 3000 (value checked), (ii) the DAG print of a deep formula with a quantifier in an earlier argument
+    position than its deep sibling (the quantifier's sub-printer restarts the `.def_` numbering)."""
+    depth = 3000
+    # (i)
+    env = Environment()
+    push_env(env)
+    try:
+        m = env.formula_manager
+        x = m.Symbol("x", types.INT)
+        t = x
+        for _ in range(depth):
+            t = m.Plus(t, m.Int(1))
+        want = m.GT(t, m.Int(0))
+        text = "(declare-fun x () Int)(assert " + "(let ((x (+ x 1))) " * depth + "(> x 0)" + ")" * depth + ")"
+        _reparse_check(ctx, env, text, want, "let_tower_handwritten", {"shape": "let-tower", "kind": "shadow", "k": depth},
+                       timings)
+    finally:
+        pop_env()
+    # (ii)
+    for kind in ("and", "plus"):
+        env = Environment()
+        push_env(env)
+        try:
+            m = env.formula_manager
+            p, q = m.Symbol("p"), m.Symbol("q")
+            x, y = m.Symbol("x", types.INT), m.Symbol("y", types.INT)
+            quant = m.ForAll([q], m.Or(q, m.And(p, m.Not(q)), m.LE(x, y)))
+            if kind == "and":
+                t = p
+                for i in range(depth):
+                    t = m.And(m.Or(t, m.Symbol("p%d" % (i % 5))), p)
+                phi = m.And(quant, t)
+            else:
+                t = x
+                for i in range(depth):
+                    t = m.Plus(t, m.Int(i % 3))
+                phi = m.And(m.Or(quant, p), m.LE(t, y), m.Exists([q], m.And(q, p)))
+            buf = io.StringIO()
+            smtlibscript_from_formula(phi).serialize(buf, daggify=True)
+            _reparse_check(ctx, env, buf.getvalue(), phi, "let_tower_quantifier_first",
+                           {"shape": "let-tower", "kind": "quant-first-" + kind, "k": depth}, timings)
+        finally:
+            pop_env()
+
+
+def _reparse_check(ctx, env, text, want, name, params, timings):
+    sig = {"family": "let-tower/" + params["kind"], "op": name}
+    replay = {"family": params, "op": name}
+    t0 = time.time()
+    try:
+        got = SmtLibParser(env).get_script(io.StringIO(text)).get_last_formula()
+    except RecursionError:
+        ctx.report_s(dict(sig, oracle="recursion"), "RecursionError re-parsing a tower of %d re-defining lets (%s)" % (
+            params["k"], params["kind"]), replay)
+        return
+    except Exception as e:      # noqa
+        ctx.report_k("%s (%s): parsing raised %r" % (name, params["kind"], e), replay)
+        return
+    finally:
+        timings.setdefault(name, []).append((params["shape"], params["kind"], params["k"], round(time.time() - t0, 3)))
+    ctx.count("op:" + name)
+    ctx.case((name, params["kind"]))
+    if got is not want:
+        ctx.report_s(dict(sig, oracle="value"), "%s (%s): the re-parsed formula is not the original one" % (
+            name, params["kind"]), replay)
+
+
+def check_partitions(ctx, timings, quick):
+    """conjunctive_partition / disjunctive_partition / propagate_toplevel on shared And/Or skeletons
+    c' = (c & x) & (c & y): the tests `is_and()` / `is_or()` made from outside are counted"""
+    for fn_name in ("conjunctive_partition", "disjunctive_partition", "propagate_toplevel"):
+        for k in ([12, 40] if quick else [8, 20, 40, 60]):
+            env = Environment()
+            push_env(env)
+            try:
+                m = env.formula_manager
+                mk, mk2 = (m.Or, m.And) if fn_name == "disjunctive_partition" else (m.And, m.Or)
+                c = m.Symbol("c0")
+                for i in range(k):
+                    c = mk(mk(c, m.Symbol("x%d" % i)), mk(c, mk2(m.Symbol("y%d" % i), m.Symbol("x%d" % (i // 2)))))
+                order, index, chl = abstract_graph(c, lambda n: n.args())
+                size = len(order) + sum(len(a) for a in chl)
+                calls = [0]
+                orig_and, orig_or = FNode.is_and, FNode.is_or
+                limit = 200 * size + 5000
+
+                def c_and(self):
+                    calls[0] += 1
+                    if calls[0] > limit:
+                        raise Runaway(calls[0])
+                    return orig_and(self)
+
+                def c_or(self):
+                    calls[0] += 1
+                    if calls[0] > limit:
+                        raise Runaway(calls[0])
+                    return orig_or(self)
+                FNode.is_and, FNode.is_or = c_and, c_or
+                t0 = time.time()
+                exc = None
+                try:
+                    if fn_name == "propagate_toplevel":
+                        rewritings.propagate_toplevel(c, env, do_simplify=False)
+                    else:
+                        list(getattr(rewritings, fn_name)(c))
+                except BaseException as e:      # noqa
+                    if isinstance(e, (KeyboardInterrupt, SystemExit)):
+                        raise
+                    exc = e
+                finally:
+                    FNode.is_and, FNode.is_or = orig_and, orig_or
+                timings.setdefault(fn_name, []).append(("skeleton", fn_name, k, round(time.time() - t0, 3)))
+                ctx.count("op:" + fn_name)
+                ctx.case((fn_name, k))
+                sig = {"family": "skeleton/shared", "op": fn_name}
+                replay = {"family": {"shape": "skeleton", "kind": fn_name, "k": k}, "op": fn_name}
+                if isinstance(exc, RecursionError):
+                    ctx.report_s(dict(sig, oracle="recursion"), "RecursionError in %s (k=%d)" % (fn_name, k), replay)
+                elif isinstance(exc, Runaway) or calls[0] > 20 * size + 100:
+                    ctx.report_s(dict(sig, oracle="visit-count"),
+                                 "%s on a shared skeleton with %d nodes+edges made %s is_and/is_or tests" % (
+                                     fn_name, size, "more than %d" % limit if isinstance(exc, Runaway) else calls[0]),
+                                 replay)
+                elif exc is not None:
+                    ctx.report_k("%s (k=%d) raised %r" % (fn_name, k, exc), replay)
+                ctx.extra["max_partition_tests_per_item"] = max(ctx.extra.get("max_partition_tests_per_item", 0),
+                                                                round(calls[0] / float(size), 2))
+            finally:
+                pop_env()
+
+
 def check_tree_walkers(ctx, env, fam, fam_sig, timings):
     """walkers/tree.py (generator-based TreeWalker: HR serialisation, tree-style SMT-LIB printing): not memoising,
     so only run where the tree is as small as the DAG (combs, wide nodes); S = no RecursionError at any depth."""
@@ -1175,6 +1308,9 @@ def run(ctx):
             ctx.count("skipped_families_time_budget")
             break
         run_family(ctx, shape, kind, k, opset, pending, timings)
+    if ctx.time_left() > 30:
+        check_let_towers(ctx, timings)
+        check_partitions(ctx, timings, ctx.tier == "quick")
     # ---------- random DAGs, all operations + generic walker with fault injection
     n_random = 25 if ctx.tier == "quick" else 300
     generic = []
@@ -1258,6 +1394,12 @@ def replay(ctx, rep):
     fp = r["family"]
     timings = {}
     pending = []
+    if fp.get("shape") == "let-tower":
+        check_let_towers(ctx, timings)
+        return
+    if fp.get("shape") == "skeleton":
+        check_partitions(ctx, timings, False)
+        return
     if fp.get("shape") == "random":
         ctx.report_k("random-DAG cases are regenerated from the seed: VERIF_SEED=%s ./check C20" % rep.get("seed"), r)
         return
